@@ -7,6 +7,15 @@ import MakoModel.Lexer.Drv
 import MakoModel.Conc.Drv
 import MakoModel.Extract.Drv
 import MakoModel.Printer.Drv
+import MakoModel.Cache.Drv
+import MakoModel.Encoding.Drv
+import MakoModel.Inherit.Drv
+import MakoModel.Namespace.Drv
+import MakoModel.Target.Drv
+import MakoModel.Paths8.Drv
+import MakoModel.Names.Drv
+import MakoModel.ModFile.Drv
+import MakoModel.PyExpr.Drv
 /-! Dispatch table of the driver: one line per model area (`op prefix`, handler). -/
 namespace Driver
 open MakoModel
@@ -20,6 +29,15 @@ def table : List (String × Wire.Handler) :=
   , ("conc", Conc.Drv.handle)
   , ("extr", Extract.Drv.handle)
   , ("prn", Printer.Drv.handle)
+  , ("cache", Cache.Drv.handle)
+  , ("encd", Encoding.Drv.handle)
+  , ("inh", Inherit.Drv.handle)
+  , ("ns", Namespace.Drv.handle)
+  , ("tgt", Target.Drv.handle)
+  , ("p8", Paths8.Drv.handle)
+  , ("names", Names.Drv.handle)
+  , ("modfile", ModFile.Drv.handle)
+  , ("py", PyExpr.Drv.handle)
   ]
 
 end Driver
